@@ -61,7 +61,7 @@ func (p *advPool) get() interface{} {
 		b = &s
 		p.known[b] = true
 	}
-	p.fill(b, p.seq)
+	p.fill(b, 0) // the same garbage every time: a failing case must not depend on earlier cases
 	*b = (*b)[:0]
 	p.out[b] = true
 	return decimal.VerifDecPtr(b)
@@ -86,8 +86,7 @@ func (p *advPool) put(x interface{}) {
 	delete(p.out, b)
 	// poison: a later use of this buffer by its previous owner reads garbage
 	if cap(*b) > 0 {
-		p.seq++
-		p.fill(b, p.seq*31)
+		p.fill(b, 2)
 	}
 	p.free = append(p.free, b)
 }
@@ -111,8 +110,9 @@ func uninstallAdvPool() {
 // poolSeamsPresent reports whether dec.go was built with the pool trampolines:
 // it runs a division that must use the pool.
 func poolSeamsPresent() bool {
+	prev, pg, pp := theAdvPool, decimal.VerifPoolGetFn, decimal.VerifPoolPutFn
 	p := installAdvPool(64)
-	defer uninstallAdvPool()
+	defer func() { theAdvPool, decimal.VerifPoolGetFn, decimal.VerifPoolPutFn = prev, pg, pp }()
 	u := []Word{1, 2, 3, Word(BW - 1)}
 	v := []Word{5, Word(BW / 2)}
 	decimal.VerifDecDiv(nil, nil, u, v)
